@@ -15,6 +15,7 @@ import (
 	"fmt"
 	"go/ast"
 	"go/token"
+	"os"
 	"sort"
 	"strconv"
 	"strings"
@@ -110,6 +111,13 @@ type pwalk struct {
 	paths   *[]pathSite
 	other   map[string]int
 	inlined map[string]bool // helper functions that were analysed at a call site
+}
+
+func (w *pwalk) note(kind string, n ast.Node) {
+	w.other[kind]++
+	if os.Getenv("NAVDEBUG") != "" {
+		fmt.Fprintf(os.Stderr, "%s %s %s: %s\n", kind, fset.Position(n.Pos()), w.fn, strings.ReplaceAll(show(n), "\n", " "))
+	}
 }
 
 func (w *pwalk) fresh(rule string) nval {
@@ -422,7 +430,7 @@ func (w *pwalk) expr(x ast.Expr) {
 				}
 			} else if c, ok := v.X.(*ast.CallExpr); ok {
 				if s, ok := c.Fun.(*ast.SelectorExpr); ok && (s.Sel.Name == "GetChild" || s.Sel.Name == "GetParent") {
-					w.other["assert-on-"+s.Sel.Name+"-not-followed"]++
+					w.note("assert-on-"+s.Sel.Name+"-not-followed", v)
 				}
 			}
 		case *ast.CallExpr:
@@ -433,7 +441,7 @@ func (w *pwalk) expr(x ast.Expr) {
 						if k, ok := w.intOf(v.Args[0]); ok {
 							w.emit(nv, pstep{kind: "child", n: k}, v) // the index must not equal the number of children
 						} else {
-							w.other["GetChild-variable-index"]++
+							w.note("GetChild-variable-index", v)
 						}
 					}
 				} else if s.Sel.Name == "String" {
@@ -442,7 +450,7 @@ func (w *pwalk) expr(x ast.Expr) {
 						w.emit(tv, pstep{kind: "deref"}, v)
 					}
 				} else if s.Sel.Name == "GetChild" || s.Sel.Name == "GetParent" {
-					w.other[s.Sel.Name+"-on-value-not-followed"]++
+					w.note(s.Sel.Name+"-on-value-not-followed", v)
 				}
 			}
 			w.call(v)
@@ -500,7 +508,7 @@ func (w *pwalk) call(c *ast.CallExpr) {
 			if id, ok := a.(*ast.Ident); ok && id.Name == "nil" {
 				continue
 			}
-			w.other["helper-argument-not-followed"]++
+			w.note("helper-argument-not-followed", a)
 		}
 	}
 	if !any {
@@ -796,7 +804,7 @@ func (w *pwalk) stmt(st ast.Stmt) {
 					w.vals[x.Name] = nv.with(pstep{kind: "assert", s: t})
 					w.oks[okid.Name] = pending{okName: okid.Name, loc: locKey(nv.base, nv.steps), rule: t}
 				} else if t != "" && x != nil {
-					w.other["comma-ok-assertion-not-followed"]++
+					w.note("comma-ok-assertion-not-followed", ta)
 				}
 				return
 			}
